@@ -15,4 +15,28 @@ CLAIMED = {
     },
 }
 
+CLAIMED["C14"] = {
+    "technique": "static analysis: eigen-API typestate (abstract interpretation of every acyclic path of the four nvecs: "
+                 "solver kind, which axis is permuted, sort direction and key provenance, truncation axis), sign-rule "
+                 "pattern, sibling agreement of the solver switch",
+    "level": "Decides on every path of tensor/sptensor/ktensor/ttensor.nvecs that the returned matrix is the eigenvector "
+             "matrix of a symmetric solver with columns (not rows) permuted by a descending argsort keyed on the same "
+             "call's eigenvalues and truncated to r columns, that the sign rule pivots per column on |v| and flips the "
+             "column, and that the four siblings switch solver under the same condition. Does not decide that the Gram "
+             "matrix is the mode-n Gram matrix, nor subspace equality across representations.",
+    "note": "Trusted: scipy's eigh/eigsh/eig/eigs result conventions as written in pv/eigen.py; path enumeration unrolls "
+            "loops once.",
+}
+CLAIMED["C16"] = {
+    "technique": "static analysis: writer/reader agreement between export_data.py and import_data.py (printf precision of "
+                 "default formats, subscript offset vs index_base, enumeration-order tags per kind, L/N field-sequence "
+                 "comparison per kind, entry-line field order)",
+    "level": "Decides that every default float format reaching tofile keeps >= 17 significant digits, that the export "
+             "offset equals the importer's default index_base which is subtracted and forwarded, that each kind is "
+             "written and rebuilt in the same enumeration order (F/F dense, C/C factors and matrices), that the sequence "
+             "of text lines and numeric blocks written per kind equals the sequence read, and that sparse entry lines are "
+             "subscripts-then-value on both sides. Does not decide run-time parsing of extreme exponents.",
+    "note": "Trusted: numpy tofile/fromfile text-mode contracts; a double round-trips through 17 significant digits.",
+}
+
 NOT_APPLICABLE = {}
